@@ -46,10 +46,18 @@ def simple_init(prog: Program, qualname: str) -> bool:
                     continue
                 if isinstance(st, ast.FunctionDef):
                     continue
-                if isinstance(st, (ast.Assign, ast.AnnAssign)):
-                    tg = st.targets if isinstance(st, ast.Assign) else [st.target]
-                    if all(isinstance(t, ast.Attribute) and isinstance(t.value, ast.Name) and t.value.id == "self" for t in tg):
-                        continue
+                def self_assign(x):
+                    if isinstance(x, (ast.Assign, ast.AnnAssign)):
+                        tg = x.targets if isinstance(x, ast.Assign) else [x.target]
+                        return all(isinstance(t, ast.Attribute) and isinstance(t.value, ast.Name) and t.value.id == "self" for t in tg)
+                    return False
+
+                if self_assign(st):
+                    continue
+                # `if arg is (not) None: self.x = ... else: self.x = ...` (the statement form of a conditional default) is as simple
+                if isinstance(st, ast.If) and all(self_assign(x) for x in st.body + st.orelse) and isinstance(st.test, ast.Compare) and len(st.test.ops) == 1 \
+                        and isinstance(st.test.ops[0], (ast.Is, ast.IsNot)) and isinstance(st.test.comparators[0], ast.Constant) and st.test.comparators[0].value is None:
+                    continue
                 ok = False
                 break
     _SIMPLE_INIT[qualname] = ok
